@@ -9,7 +9,7 @@ Binding (P1 + P2): every source is compiled by the real HTML / String class with
 logged; the search log (a recorded trace), accept / reject, the exception class, the tag named in the
 message, its line and -- for accepted sources -- the compiled program must be the machine's.
 
-Families: (a) all item sequences up to the tier length over a 16-item alphabet, both syntaxes, one tag per
+Families: (a) all item sequences up to the tier length over a 17-item alphabet (one item is text with unterminated entity openers), both syntaxes, one tag per
 line; (b) all attribute lists up to the tier length per tag; (c) valid templates with one mutation (char
 deleted / duplicated / swapped, tag deleted / duplicated / swapped) at every position; (d) truncation at
 every offset; (e) random soups of tag fragments, quotes and delimiters.  Clauses "only ParseError /
@@ -32,12 +32,12 @@ PID = 'C06'
 
 H_ITEMS = ['<dtml-if a>', '<dtml-elif b>', '<dtml-else>', '</dtml-if>', '<dtml-in s>', '</dtml-in>',
            '<dtml-try>', '<dtml-except>', '<dtml-finally>', '</dtml-try>', '<dtml-let x=a>', '</dtml-let>',
-           '<dtml-var v>', 'text', '<dtml-bogus>', '</dtml-with>']
+           '<dtml-var v>', 'text', '<dtml-bogus>', '</dtml-with>', 'see &dtml-foo and &dtml.x']
 E_ITEMS = ['%(if a)[', '%(elif b)[', '%(else)[', '%(if)]', '%(in s)[', '%(in)]', '%(try)[', '%(except)[',
-           '%(finally)[', '%(try)]', '%(let x=a)[', '%(let)]', '%(v)s', 'text', '%(bogus)[', '%(with)]']
+           '%(finally)[', '%(try)]', '%(let x=a)[', '%(let)]', '%(v)s', 'text', '%(bogus)[', '%(with)]', 'see &dtml-foo and &dtml.x']
 S_ITEMS = ['<!--#if a-->', '<!--#elif b-->', '<!--#else-->', '<!--#/if-->', '<!--#in s-->', '<!--#endin-->',
            '<!--#try-->', '<!--#except-->', '<!--#finally-->', '<!--#/try-->', '<!--#let x=a-->', '<!--#/let-->',
-           '<!--#var v-->', 'text', '<!--#bogus-->', '<!--#/with-->']
+           '<!--#var v-->', 'text', '<!--#bogus-->', '<!--#/with-->', 'see &dtml-foo and &dtml.x']
 
 
 def seq_cases(tier, rng):
